@@ -309,6 +309,23 @@ def x_array(perm: list[int], inst) -> np.ndarray:
     return np.array(perm, dtype=inst.dtype)
 
 
+_XBUF: dict = {}
+
+
+def x_buffer(perm: list[int], inst) -> np.ndarray:
+    """The permutation in a buffer that is re-used (overwritten in place) for
+    all points of the same length and type, as optimisers do. Only for
+    callers that use the array at once."""
+    key = (len(perm), str(inst.dtype))
+    b = _XBUF.get(key)
+    if b is None:
+        if len(_XBUF) > 64:
+            _XBUF.clear()
+        b = _XBUF[key] = np.empty(len(perm), dtype=inst.dtype)
+    b[:] = perm
+    return b
+
+
 # --------------------------------------------------------------------------
 # feasible layouts that the decoders cannot produce
 def layout_variants(rng, desc: dict, rows: list[list[int]]):
